@@ -24,9 +24,9 @@ type JoinSc struct {
 	RelCap   int      `json:"released_cap"` // v1: capacity of the user-owned Released channel
 	Bursts   []JBurst `json:"bursts"`
 	CloseDly int64    `json:"close_delay"` // pause between the last write and closing the input
-	Cons     []JCons  `json:"consumer"` // cycled per slice
-	Scribble bool     `json:"scribble"` // copy mode: consumer overwrites the slices it keeps
-	StallAt  int      `json:"stall_at"` // consumer pauses before reading slice #StallAt (0: never)
+	Cons     []JCons  `json:"consumer"`    // cycled per slice
+	Scribble bool     `json:"scribble"`    // copy mode: consumer overwrites the slices it keeps
+	StallAt  int      `json:"stall_at"`    // consumer pauses before reading slice #StallAt (0: never)
 	StallFor int64    `json:"stall_for"`
 	Stop     *JStop   `json:"stop,omitempty"`
 	Horizon  int64    `json:"horizon"`
@@ -49,12 +49,12 @@ type JCons struct {
 type JStop struct {
 	AtNs       int64 `json:"at_ns"`
 	AtStep     int64 `json:"at_step"`
-	Cancel     bool  `json:"cancel"`      // cancel the context instead of calling Stop
-	ThenStop   bool  `json:"then_stop"`   // after cancel, also call Stop() to wait
+	Cancel     bool  `json:"cancel"`        // cancel the context instead of calling Stop
+	ThenStop   bool  `json:"then_stop"`     // after cancel, also call Stop() to wait
 	NeverRel   bool  `json:"never_release"` // consumer never sends the release signal
-	StopReader bool  `json:"stop_reader"` // consumer stops reading at StallAt forever
-	Second     bool  `json:"second_stop"` // a second goroutine calls Stop() concurrently
-	NoClose    bool  `json:"no_close"`    // the producer never closes the input (it just stops writing)
+	StopReader bool  `json:"stop_reader"`   // consumer stops reading at StallAt forever
+	Second     bool  `json:"second_stop"`   // a second goroutine calls Stop() concurrently
+	NoClose    bool  `json:"no_close"`      // the producer never closes the input (it just stops writing)
 }
 
 func (sc *JoinSc) class() string { return sc.Class }
@@ -632,7 +632,7 @@ func joinConsumer(sc *JoinSc, h joinHandle, ctlDone <-chan struct{}) {
 
 type joinView struct {
 	t0        int64
-	written   [][]int // producer units in order (join: single elements)
+	written   [][]int       // producer units in order (join: single elements)
 	recvT     map[int]int64 // element -> time the discipline accepted it
 	sends     []simrt.Rec   // discipline's writes to the output, in order
 	gots      []simrt.Rec   // consumer's deliveries
